@@ -158,6 +158,20 @@ impl ConnBuffer {
     }
 
     fn write_elem(&mut self, left: i16, right: i16, cost: i16) -> DicWriteResult<()> {
+        if left < 0 || left >= self.num_left {
+            return Err(BuildFailure::InvalidFieldSize {
+                actual: left as usize,
+                expected: self.num_left as usize,
+                field: "left",
+            });
+        }
+        if right < 0 || right >= self.num_right {
+            return Err(BuildFailure::InvalidFieldSize {
+                actual: right as usize,
+                expected: self.num_right as usize,
+                field: "right",
+            });
+        }
         let index = right as usize * self.num_left as usize + left as usize;
         let index = index * 2;
         let bytes = cost.to_le_bytes();
